@@ -1,6 +1,9 @@
 import PorepyVerif.C37.Model
 import Mathlib.Tactic.Ring
 import Mathlib.Algebra.Order.Field.Rat
+import Mathlib.Logic.Relation
+import Mathlib.Data.List.Nodup
+import Mathlib.Data.List.Perm.Subperm
 
 namespace PorepyVerif.C37
 
@@ -171,7 +174,7 @@ theorem unitVec_succ_self (k : Nat) : unitVec (k + 1) k = zeros k ++ [1] := by
 theorem unitVec_zero_succ (n : Nat) : unitVec (n + 1) 0 = 1 :: zeros n := by
   simp only [unitVec, List.range_succ_eq_map, List.map_cons, List.map_map]
   simp [zeros, Function.comp_def]
-  exact List.eq_replicate_iff.mpr ⟨by simp, by simp⟩
+  all_goals exact List.eq_replicate_iff.mpr ⟨by simp, by simp⟩
 
 theorem unitVec_succ_succ (n i : Nat) : unitVec (n + 1) (i + 1) = 0 :: unitVec n i := by
   simp only [unitVec, List.range_succ_eq_map, List.map_cons, List.map_map]
@@ -443,6 +446,168 @@ theorem inverse_length (A B : Mat) (h : inverse A = some B) :
   obtain ⟨r, hr, rfl⟩ := List.mem_map.mp hb
   obtain ⟨i, hi, rfl⟩ := List.getElem_of_mem hr
   exact (hspec.2 i hi).1
+
+
+
+/-! ### label merging = connected components -/
+
+theorem getElem?_relabel (a b : Nat) (lab : List Nat) (u : Nat) :
+    (relabel a b lab)[u]? = lab[u]?.map (fun l => if l = b then a else l) := by
+  simp [relabel]
+
+@[simp] theorem length_relabel (a b : Nat) (lab : List Nat) : (relabel a b lab).length = lab.length := by
+  simp [relabel]
+
+@[simp] theorem length_mergeEdge (n : Nat) (lab : List Nat) (e : Nat × Nat) :
+    (mergeEdge n lab e).length = lab.length := by
+  unfold mergeEdge
+  split <;> simp
+
+theorem length_labels (n : Nat) (es : List (Nat × Nat)) : (labels n es).length = 2 * n := by
+  unfold labels
+  suffices ∀ lab : List Nat, (es.foldl (mergeEdge n) lab).length = lab.length by simp [this]
+  induction es with
+  | nil => intro lab; rfl
+  | cons e es ih => intro lab; simp [ih]
+
+/-- node-level edge relation of the bipartite graph: row node `i` — column node `n + j` -/
+def Edge (n : Nat) (es : List (Nat × Nat)) (u v : Nat) : Prop := ∃ e ∈ es, u = e.1 ∧ v = n + e.2
+
+/-- connectivity in the (undirected) graph -/
+def Conn (n : Nat) (es : List (Nat × Nat)) : Nat → Nat → Prop := Relation.EqvGen (Edge n es)
+
+/-- invariant of the fold: labels are node names, equal labels imply connectivity -/
+structure LabInv (n : Nat) (es : List (Nat × Nat)) (lab : List Nat) : Prop where
+  len : lab.length = 2 * n
+  bound : ∀ (u l : Nat), lab[u]? = some l → l < 2 * n
+  sound : ∀ (u v l : Nat), lab[u]? = some l → lab[v]? = some l → Conn n es u v
+
+theorem labInv_init (n : Nat) (es : List (Nat × Nat)) : LabInv n es (List.range (2 * n)) where
+  len := by simp
+  bound := by
+    intro u l h
+    rw [List.getElem?_eq_some_iff] at h
+    obtain ⟨h1, h2⟩ := h
+    simp at h1 h2
+    omega
+  sound := by
+    intro u v l hu hv
+    rw [List.getElem?_eq_some_iff] at hu hv
+    obtain ⟨h1, h2⟩ := hu
+    obtain ⟨h3, h4⟩ := hv
+    simp at h2 h4
+    subst h2
+    subst h4
+    exact Relation.EqvGen.refl _
+
+
+
+theorem mergeEdge_eq_map (n : Nat) (lab : List Nat) (e : Nat × Nat) :
+    ∃ f : Nat → Nat, ∀ u : Nat, (mergeEdge n lab e)[u]? = lab[u]?.map f := by
+  unfold mergeEdge
+  split
+  · rename_i a b _ _
+    exact ⟨fun l => if l = b then a else l, fun u => getElem?_relabel a b lab u⟩
+  · exact ⟨id, fun u => by simp⟩
+
+/-- merging never separates nodes that already share a label -/
+theorem mergeEdge_keeps (n : Nat) (lab : List Nat) (e : Nat × Nat) (u v : Nat)
+    (h : lab[u]? = lab[v]?) : (mergeEdge n lab e)[u]? = (mergeEdge n lab e)[v]? := by
+  obtain ⟨f, hf⟩ := mergeEdge_eq_map n lab e
+  rw [hf, hf, h]
+
+theorem foldl_keeps (n : Nat) (es : List (Nat × Nat)) (lab : List Nat) (u v : Nat)
+    (h : lab[u]? = lab[v]?) :
+    (es.foldl (mergeEdge n) lab)[u]? = (es.foldl (mergeEdge n) lab)[v]? := by
+  induction es generalizing lab with
+  | nil => exact h
+  | cons e es ih => exact ih _ (mergeEdge_keeps n lab e u v h)
+
+/-- merging joins the two end points of the edge -/
+theorem mergeEdge_joins (n : Nat) (lab : List Nat) (e : Nat × Nat)
+    (h1 : e.1 < lab.length) (h2 : n + e.2 < lab.length) :
+    (mergeEdge n lab e)[e.1]? = (mergeEdge n lab e)[n + e.2]? := by
+  unfold mergeEdge
+  have e1 : lab[e.1]? = some lab[e.1] := List.getElem?_eq_getElem h1
+  have e2 : lab[n + e.2]? = some lab[n + e.2] := List.getElem?_eq_getElem h2
+  rw [e1, e2]
+  simp only [getElem?_relabel, e1, e2, Option.map_some]
+  simp
+
+theorem foldl_closed (n : Nat) (es : List (Nat × Nat)) (lab : List Nat) (hlen : lab.length = 2 * n)
+    (hr : ∀ e ∈ es, e.1 < n ∧ e.2 < n) :
+    ∀ e ∈ es, (es.foldl (mergeEdge n) lab)[e.1]? = (es.foldl (mergeEdge n) lab)[n + e.2]? := by
+  induction es generalizing lab with
+  | nil => intro e he; cases he
+  | cons e0 es ih =>
+    intro e he
+    rw [List.foldl_cons]
+    rcases List.mem_cons.mp he with rfl | he
+    · apply foldl_keeps
+      have := hr e List.mem_cons_self
+      exact mergeEdge_joins n lab e (by omega) (by omega)
+    · exact ih _ (by simp [hlen]) (fun e' he' => hr e' (List.mem_cons_of_mem _ he')) e he
+
+theorem labInv_merge (n : Nat) (es : List (Nat × Nat)) (lab : List Nat) (h : LabInv n es lab)
+    (e : Nat × Nat) (he : e ∈ es) : LabInv n es (mergeEdge n lab e) := by
+  unfold mergeEdge
+  split
+  · rename_i a b ha hb
+    refine ⟨by simp [h.len], ?_, ?_⟩
+    · intro u l hu
+      rw [getElem?_relabel] at hu
+      cases hx : lab[u]? with
+      | none => simp [hx] at hu
+      | some x =>
+        simp only [hx, Option.map_some, Option.some.injEq] at hu
+        split at hu
+        · subst hu; exact h.bound _ _ ha
+        · subst hu; exact h.bound _ _ hx
+    · intro u v l hu hv
+      rw [getElem?_relabel] at hu hv
+      have hedge : Conn n es e.1 (n + e.2) := Relation.EqvGen.rel _ _ ⟨e, he, rfl, rfl⟩
+      cases hx : lab[u]? with
+      | none => simp [hx] at hu
+      | some x =>
+        cases hy : lab[v]? with
+        | none => simp [hy] at hv
+        | some y =>
+          simp only [hx, hy, Option.map_some, Option.some.injEq] at hu hv
+          by_cases hxb : x = b <;> by_cases hyb : y = b
+          · subst hxb; subst hyb; exact h.sound u v _ hx hy
+          · -- u is in the class of the column node, v in the class of the row node
+            simp only [hxb, hyb, if_true, if_false] at hu hv
+            subst hxb
+            have hya : y = a := by rw [hv, ← hu]
+            subst hya
+            exact Relation.EqvGen.trans _ _ _ (h.sound u (n + e.2) _ hx hb)
+              (Relation.EqvGen.trans _ _ _ (Relation.EqvGen.symm _ _ hedge) (h.sound e.1 v _ ha hy))
+          · simp only [hxb, hyb, if_true, if_false] at hu hv
+            subst hyb
+            have hxa : x = a := by rw [hu, ← hv]
+            subst hxa
+            exact Relation.EqvGen.trans _ _ _ (h.sound u e.1 _ hx ha)
+              (Relation.EqvGen.trans _ _ _ hedge (h.sound (n + e.2) v _ hb hy))
+          · simp only [hxb, hyb, if_false] at hu hv
+            have : x = y := by rw [hu, hv]
+            subst this
+            exact h.sound u v _ hx hy
+  · exact h
+
+theorem labInv_foldl (n : Nat) (es0 es : List (Nat × Nat)) (hsub : ∀ e ∈ es, e ∈ es0) (lab : List Nat)
+    (h : LabInv n es0 lab) : LabInv n es0 (es.foldl (mergeEdge n) lab) := by
+  induction es generalizing lab with
+  | nil => exact h
+  | cons e es ih =>
+    exact ih (fun e' he' => hsub e' (List.mem_cons_of_mem _ he')) _
+      (labInv_merge n es0 lab h e (hsub e List.mem_cons_self))
+
+theorem labInv_labels (n : Nat) (es : List (Nat × Nat)) : LabInv n es (labels n es) :=
+  labInv_foldl n es es (fun _ h => h) _ (labInv_init n es)
+
+theorem labels_closed (n : Nat) (es : List (Nat × Nat)) (hr : ∀ e ∈ es, e.1 < n ∧ e.2 < n) :
+    ∀ e ∈ es, (labels n es)[e.1]? = (labels n es)[n + e.2]? :=
+  foldl_closed n es _ (by simp) hr
 
 
 end PorepyVerif.C37
